@@ -26,13 +26,18 @@ Fixpoint find_node (t : node) (comps : list bytes) : option node :=
 
 Definition pjoin (a c : bytes) : bytes := if beqb a [] then c else a ++ [47%N] ++ c.
 
-(* OUT_DIR as an association list path -> content, plus what a run did *)
+(* What a run does is recorded, not performed: `plan` is the sequence of write_if_changed calls
+   (path, content) in order.  Nothing in the build script reads OUT_DIR except write_if_changed's
+   own comparison, so the plan is computed without any reference to the prior OUT_DIR; the file
+   system effect is obtained afterwards by [exec_plan]. *)
+Inductive oline := Line (l : bytes) | Raw (text : bytes).   (* a println!, or text written as is *)
 Record world := {
-  fs : list (bytes * bytes);      (* files under OUT_DIR *)
-  writes : list bytes;            (* paths physically written, in order *)
-  out : bytes;                    (* stdout, as one byte stream *)
+  plan : list (bytes * bytes);    (* write_if_changed calls, in order *)
+  out : list oline;               (* stdout *)
   reads : list bytes;             (* input paths read or listed *)
 }.
+Definition render_out (l : list oline) : bytes :=
+  flat_map (fun o => match o with Line x => x ++ [10%N] | Raw t => t end) l.
 Fixpoint fs_get (p : bytes) (l : list (bytes * bytes)) : option bytes :=
   match l with [] => None | (k, v) :: r => if beqb k p then Some v else fs_get p r end.
 Fixpoint fs_set (p v : bytes) (l : list (bytes * bytes)) : list (bytes * bytes) :=
@@ -41,21 +46,35 @@ Fixpoint fs_set (p v : bytes) (l : list (bytes * bytes)) : list (bytes * bytes) 
   | (k, w) :: r => if beqb k p then (k, v) :: r else (k, w) :: fs_set p v r
   end.
 
-(* write_if_changed: read_to_string (fails on invalid UTF-8), compare, write only on difference *)
 Definition write_if_changed (w : world) (path content : bytes) : world :=
-  match fs_get path (fs w) with
-  | Some old => if utf8_valid old && beqb old content then w
-                else {| fs := fs_set path content (fs w); writes := writes w ++ [path]; out := out w; reads := reads w |}
-  | None => {| fs := fs_set path content (fs w); writes := writes w ++ [path]; out := out w; reads := reads w |}
-  end.
+  {| plan := plan w ++ [(path, content)]; out := out w; reads := reads w |}.
 Definition say (w : world) (line : bytes) : world :=
-  {| fs := fs w; writes := writes w; out := out w ++ line ++ [10%N]; reads := reads w |}.
+  {| plan := plan w; out := out w ++ [Line line]; reads := reads w |}.
 Definition say_raw (w : world) (text : bytes) : world :=
-  {| fs := fs w; writes := writes w; out := out w ++ text; reads := reads w |}.
+  {| plan := plan w; out := out w ++ [Raw text]; reads := reads w |}.
 Definition note_read (w : world) (p : bytes) : world :=
-  {| fs := fs w; writes := writes w; out := out w; reads := reads w ++ [p] |}.
+  {| plan := plan w; out := out w; reads := reads w ++ [p] |}.
+
+(* write_if_changed proper, on OUT_DIR as an association list path -> content:
+   read_to_string (fails on invalid UTF-8), compare the full content, write only on difference.
+   Returns the new file system and whether a physical write happened. *)
+Definition wic_step (fs : list (bytes * bytes)) (path content : bytes) : list (bytes * bytes) * bool :=
+  match fs_get path fs with
+  | Some old => if utf8_valid old && beqb old content then (fs, false) else (fs_set path content fs, true)
+  | None => (fs_set path content fs, true)
+  end.
+(* the effect of a plan on a prior OUT_DIR: final files and the paths physically written, in order *)
+Fixpoint exec_plan (fs : list (bytes * bytes)) (pl : list (bytes * bytes)) : list (bytes * bytes) * list bytes :=
+  match pl with
+  | [] => (fs, [])
+  | (p, c) :: r => let '(fs1, wrote) := wic_step fs p c in
+                   let '(fs2, ws) := exec_plan fs1 r in
+                   (fs2, if wrote then p :: ws else ws)
+  end.
 
 Definition rerun (p : bytes) : bytes := b "cargo:rerun-if-changed=" ++ p.
+(* println!("cargo:rerun-if-changed={}", p) followed by reading / listing p *)
+Definition announce_read (w : world) (p : bytes) : world := note_read (say w (rerun p)) p.
 
 Definition ends_with (s suffix : bytes) : bool :=
   match strip_prefix (rev suffix) (rev s) with Some _ => true | None => false end.
@@ -72,7 +91,6 @@ Section Build.
 
   (* handle_template *)
   Definition handle_template (w : world) (name path outdir content : bytes) : bres (world * bool) :=
-    let w := note_read w path in
     match compile name content with
     | Accepted code => BOk (write_if_changed w (pjoin outdir (b "template_" ++ name ++ b ".rs")) code, true)
     | Rejected diag =>
@@ -84,47 +102,64 @@ Section Build.
   Definition suffix_name (filename suffix : bytes) : bytes :=
     firstn (length filename - length suffix) filename ++ b "_" ++ skipn 4 suffix.
 
-  (* handle_entries: fuel = depth of the tree *)
+  Definition mod_decl (name : bytes) : bytes :=
+    b "#[doc(hidden)]" ++ [10%N] ++ b "mod template_" ++ name ++ b ";" ++ [10%N] ++
+    b "#[doc(inline)]" ++ [10%N] ++ b "pub use self::template_" ++ name ++ b "::" ++ name ++ b ";" ++ [10%N; 10%N].
+  Definition modrs_header : bytes :=
+    b "#[allow(clippy::useless_attribute, unused)]" ++ [10%N] ++ b "use super::{Html,ToHtml};" ++ [10%N].
+
+  (* the `for suffix in ...` loop for one file entry *)
+  Fixpoint suffix_loop (w : world) (f : bytes) (indir outdir filename content : bytes) (ss : list bytes)
+    : bres (world * bytes) :=
+    match ss with
+    | [] => BOk (w, f)
+    | suffix :: ss' =>
+        if ends_with filename suffix then
+          let path := indir ++ [47%N] ++ filename in
+          let name := suffix_name filename suffix in
+          match handle_template (announce_read w path) name path outdir content with
+          | BOk (w', true) => suffix_loop w' (f ++ mod_decl name) indir outdir filename content ss'
+          | BOk (w', false) => suffix_loop w' f indir outdir filename content ss'
+          | BPanic w' => BPanic w'
+          | BErr w' => BErr w'
+          end
+        else suffix_loop w f indir outdir filename content ss'
+    end.
+
+  (* the `for entry in read_dir(indir)` loop; [rec] handles a sub-directory *)
+  Section Loop.
+    Variable rec : world -> bytes -> bytes -> bytes -> list (bytes * node) -> bres (world * bytes).
+    Fixpoint entries_loop (w : world) (f : bytes) (indir outdir : bytes) (es : list (bytes * node)) : bres (world * bytes) :=
+      match es with
+      | [] => BOk (w, f)
+      | (filename, Dir sub) :: rest =>
+          if utf8_valid filename then
+            let outdir' := pjoin outdir filename in
+            let path := indir ++ [47%N] ++ filename in
+            match rec (announce_read w path) modrs_header path outdir' sub with
+            | BOk (w2, modrs) =>
+                entries_loop (write_if_changed w2 (pjoin outdir' (b "mod.rs")) modrs)
+                             (f ++ b "pub mod " ++ filename ++ b ";" ++ [10%N; 10%N]) indir outdir rest
+            | e => e
+            end
+          else entries_loop w f indir outdir rest
+      | (filename, File content) :: rest =>
+          if utf8_valid filename then
+            match suffix_loop w f indir outdir filename content template_suffixes with
+            | BOk (w', f') => entries_loop w' f' indir outdir rest
+            | e => e
+            end
+          else entries_loop w f indir outdir rest
+      end.
+  End Loop.
+
+  (* handle_entries (without the println of its first line, which the caller models with
+     announce_read): fuel = depth of the tree *)
   Fixpoint handle_entries (fuel : nat) (w : world) (f : bytes) (indir outdir : bytes) (entries : list (bytes * node))
     : bres (world * bytes) :=
-    match fuel with O => BErr w | S fuel' =>
-      (fix go (w : world) (f : bytes) (es : list (bytes * node)) : bres (world * bytes) :=
-         match es with
-         | [] => BOk (w, f)
-         | (filename, Dir sub) :: rest =>
-             if utf8_valid filename then
-               let outdir' := pjoin outdir filename in
-               let modrs0 := b "#[allow(clippy::useless_attribute, unused)]" ++ [10%N] ++ b "use super::{Html,ToHtml};" ++ [10%N] in
-               let path := indir ++ [47%N] ++ filename in
-               let w1 := note_read (say w (rerun path)) path in
-               match handle_entries fuel' w1 modrs0 path outdir' sub with
-               | BOk (w2, modrs) =>
-                   let w3 := write_if_changed w2 (pjoin outdir' (b "mod.rs")) modrs in
-                   go w3 (f ++ b "pub mod " ++ filename ++ b ";" ++ [10%N; 10%N]) rest
-               | e => e
-               end
-             else go w f rest
-         | (filename, File content) :: rest =>
-             if utf8_valid filename then
-               (fix suffixes (w : world) (f : bytes) (ss : list bytes) : bres (world * bytes) :=
-                  match ss with
-                  | [] => go w f rest
-                  | suffix :: ss' =>
-                      if ends_with filename suffix then
-                        let path := indir ++ [47%N] ++ filename in
-                        let name := suffix_name filename suffix in
-                        match handle_template (say w (rerun path)) name path outdir content with
-                        | BOk (w', true) =>
-                            suffixes w' (f ++ b "#[doc(hidden)]" ++ [10%N] ++ b "mod template_" ++ name ++ b ";" ++ [10%N] ++
-                                              b "#[doc(inline)]" ++ [10%N] ++ b "pub use self::template_" ++ name ++ b "::" ++ name ++ b ";" ++ [10%N; 10%N]) ss'
-                        | BOk (w', false) => suffixes w' f ss'
-                        | BPanic w' => BPanic w'
-                        | BErr w' => BErr w'
-                        end
-                      else suffixes w f ss'
-                  end) w f template_suffixes
-             else go w f rest
-         end) w f entries
+    match fuel with
+    | O => BErr w
+    | S fuel' => entries_loop (handle_entries fuel') w f indir outdir entries
     end.
 
   Fixpoint depth (t : node) : nat :=
@@ -136,20 +171,19 @@ Section Build.
   (* ---- the directory-walking entry points of StaticFiles ---- *)
   Record sstate := { st : statics; sw : world }.
   Definition sapply (s : sstate) (o : sop) : sstate := {| st := apply_op uni_esc uni_alnum mm (st s) o; sw := sw s |}.
-  Definition ssay (s : sstate) (l : bytes) : sstate := {| st := st s; sw := say (sw s) l |}.
-  Definition sread (s : sstate) (p : bytes) : sstate := {| st := st s; sw := note_read (sw s) p |}.
+  Definition sannounce (s : sstate) (p : bytes) : sstate := {| st := st s; sw := announce_read (sw s) p |}.
 
   (* add_file on an existing file *)
   Definition add_file (s : sstate) (path content : bytes) : sstate :=
     match name_and_ext path with
-    | Some _ => sapply (sread (ssay s (rerun path)) path) (OpFile path content)
+    | Some _ => sapply (sannounce s path) (OpFile path content)
     | None => s
     end.
   Definition add_file_as (s : sstate) (path url : bytes) : sstate :=
-    sapply (ssay s (rerun path)) (OpFileAs path url).
+    sapply (sannounce s path) (OpFileAs path url).
   Definition add_files (s : sstate) (dir : bytes) (es : list (bytes * node)) : sstate :=
     fold_left (fun s '(name, x) => match x with File c => add_file s (dir ++ [47%N] ++ name) c | Dir _ => s end)
-              es (sread (ssay s (rerun dir)) dir).
+              es (sannounce s dir).
   Fixpoint add_files_as (fuel : nat) (s : sstate) (dir to : bytes) (es : list (bytes * node)) : sstate :=
     match fuel with O => s | S fuel' =>
       fold_left (fun s '(name, x) =>
@@ -158,7 +192,7 @@ Section Build.
                    | File _ => add_file_as s (dir ++ [47%N] ++ name) to'
                    | Dir sub => add_files_as fuel' s (dir ++ [47%N] ++ name) to' sub
                    end)
-                es (sread (ssay s (rerun dir)) dir)
+                es (sannounce s dir)
     end.
 
   Inductive scall :=
@@ -182,7 +216,7 @@ Section Build.
     | SAddData path data => Some (sapply s (OpData (path_for base path) data))
     | SSassRef rel ref =>
         let p := path_for base rel in
-        let s1 := sread (ssay s (rerun p)) p in
+        let s1 := sannounce s p in
         match sass_ref uni_esc uni_alnum mm (st s1) p ref with
         | (st', true) => Some {| st := st'; sw := sw s1 |}
         | (_, false) => None
@@ -191,7 +225,7 @@ Section Build.
         (* the compiler is an oracle: given the css it returned, the file is announced (by rsass's
            CargoContext) and the css is added as <stem>.css through add_file_data *)
         let p := path_for base rel in
-        let s1 := sread (ssay s (rerun p)) p in
+        let s1 := sannounce s p in
         Some (sapply s1 (OpData (with_extension p (b "css")) css))
     end.
 
@@ -210,7 +244,7 @@ Section Build.
         match find_node tree (split_path rel []) with
         | Some (Dir es) =>
             let indir := path_for base rel in
-            match handle_entries (depth tree) (note_read (say w (rerun indir)) indir) f indir (b "templates") es with
+            match handle_entries (depth tree) (announce_read w indir) f indir (b "templates") es with
             | BOk (w', f') => run_calls tree base w' f' rest
             | BPanic w' => (w', f, false)
             | BErr w' => (w', f, false)
@@ -230,9 +264,16 @@ Section Build.
         if ok then run_calls tree base w' f1 rest else (w', f1, false)
     end.
 
-  Definition run_build (tree : node) (base : bytes) (fs0 : list (bytes * bytes)) (cs : list call) : world * bool :=
-    let w0 := {| fs := fs0; writes := []; out := []; reads := [] |} in
+  (* the run itself: independent of what OUT_DIR held before *)
+  Definition run_script (tree : node) (base : bytes) (cs : list call) : world * bool :=
+    let w0 := {| plan := []; out := []; reads := [] |} in
     let '(w1, f) := ructe_new w0 in
     let '(w2, f2, ok) := run_calls tree base w1 f cs in
     (ructe_drop w2 f2, ok).
+
+  Record result := { r_fs : list (bytes * bytes); r_writes : list bytes; r_out : bytes; r_reads : list bytes; r_ok : bool }.
+  Definition run_build (tree : node) (base : bytes) (fs0 : list (bytes * bytes)) (cs : list call) : result :=
+    let '(w, ok) := run_script tree base cs in
+    let '(fs1, ws) := exec_plan fs0 (plan w) in
+    {| r_fs := fs1; r_writes := ws; r_out := render_out (out w); r_reads := reads w; r_ok := ok |}.
 End Build.
